@@ -19,6 +19,9 @@ CONFIGS = {
     # `#[cfg(not(feature = "stall-detection"))]` siblings in helpers/buffers and helpers/gateway are compiled
     "N": (["-p", "ipa-core", "--lib", "--no-default-features", "--features",
            "cli web-app real-world-infra compact-gate test-fixture"], 5500),
+    # the default features built the way CI's release / extra / slow jobs build them (`-C target-cpu=native` on x86_64):
+    # with the pclmulqdq target feature the hardware carry-less multiplication in ff::galois_field replaces the portable loop
+    "X": (["-p", "ipa-core", "--lib", "--features", "cli test-fixture"], 6000, "-C target-feature=+pclmulqdq"),
 }
 
 SRC_DIRS = ["ipa-core", "ipa-step", "ipa-step-derive", "ipa-step-test", "ipa-metrics",
@@ -92,7 +95,8 @@ def ensure_facts(cfg="Q", repo=REPO, quiet=False):
         if os.path.exists(out):
             return out, th, 0.0
         t0 = time.time()
-        args, min_bodies = CONFIGS[cfg]
+        args, min_bodies = CONFIGS[cfg][:2]
+        extra_flags = CONFIGS[cfg][2] if len(CONFIGS[cfg]) > 2 else ""
         target = os.path.join(CACHE, "target", cfg + (f".{slot}" if slot else ""))
         base = os.path.join(CACHE, "target", cfg)
         if slot and not os.path.isdir(target) and os.path.isdir(os.path.join(base, "debug", "deps")):
@@ -108,7 +112,7 @@ def ensure_facts(cfg="Q", repo=REPO, quiet=False):
             "LD_LIBRARY_PATH": sysroot() + "/lib",
             "CARGO_INCREMENTAL": "0",
             "CARGO_NET_OFFLINE": "true",
-            "RUSTFLAGS": "-Zmir-opt-level=0 -Awarnings",
+            "RUSTFLAGS": ("-Zmir-opt-level=0 -Awarnings " + extra_flags).strip(),
             "RUSTC_WORKSPACE_WRAPPER": DRIVER,
             "IPA_FACTS_OUT": tmp_out,
             "IPA_FACTS_TAG": cfg,
